@@ -32,15 +32,15 @@ theorem lookup_none {β} {l : List (Key × β)} {k : Key} (h : lookup l k = none
 /-- what a reply must satisfy for client `c` -/
 def Reply.good (c : Client) (r : Reply) : Prop := r.id = c.id ∧ ∃ rq, r.q = some rq ∧ rq.same c.q = true
 
-theorem same_of_key {a b : Question} (hn : a.name = b.name) (ht : a.qtype = b.qtype) : a.same b = true := by
-  simp [Question.same, hn, ht]
+theorem same_of_key {a b : Question} (h : a.ident = b.ident) : a.same b = true := by
+  simp [Question.same, h]
 
 structure Inv (s : St) : Prop where
-  cacheSound : ∀ (k : Key) (e : Entry), (k, e) ∈ s.cache → e.q.name = k.name ∧ e.q.qtype = k.qtype
+  cacheSound : ∀ (k : Key) (e : Entry), (k, e) ∈ s.cache → e.q.ident = k.ident ∧ k.qclass = classIN
   leaderKey : ∀ (f : Nat) (fl : Flight), s.flights[f]? = some fl →
     ∃ c : Client, s.clients[fl.leader]? = some c ∧ c.key = fl.key
   flightSound : ∀ (f : Nat) (fl : Flight) (m : UpMsg), s.flights[f]? = some fl → fl.result = some (DRes.ok m) →
-    ∃ mq : Question, m.q = some mq ∧ mq.name = fl.key.name ∧ mq.qtype = fl.key.qtype
+    ∃ mq : Question, m.q = some mq ∧ mq.ident = fl.key.ident
   attached : ∀ (i f : Nat), (s.pcs[i]? = some (Pc.waiting f) ∨ s.pcs[i]? = some (Pc.leading f)) →
     ∃ (c : Client) (fl : Flight), s.clients[i]? = some c ∧ s.flights[f]? = some fl ∧ fl.key = c.key
   outsGood : ∀ (i : Nat) (o : Outcome), (i, o) ∈ s.outs → ∃ c : Client, s.clients[i]? = some c ∧
@@ -161,8 +161,7 @@ theorem cachedReply_good (s : St) (hi : Inv s) (c : Client) (e : Entry) (h : loo
     (cachedReply c e).good c := by
   have := hi.cacheSound _ _ (lookup_some h)
   refine ⟨rfl, e.q, rfl, ?_⟩
-  simp only [Client.key] at this
-  exact same_of_key this.1 this.2
+  exact same_of_key this.1
 
 theorem inv_step_refuse (cfg : Cfg) (s : St) (i : Nat) (hi : Inv s) : Inv (step cfg s (.refuse i)) := by
   simp only [step]
@@ -195,10 +194,10 @@ theorem inv_step_wake (cfg : Cfg) (s : St) (i : Nat) (hi : Inv s) : Inv (step cf
           obtain ⟨c', fl', hc', hf', hk⟩ := hi.attached i f (.inl hp)
           rw [hc] at hc'; cases hc'
           rw [hf] at hf'; cases hf'
-          obtain ⟨mq, hmq, hn, ht⟩ := hi.flightSound f fl m hf hr
+          obtain ⟨mq, hmq, hn⟩ := hi.flightSound f fl m hf hr
           refine ⟨rfl, mq, hmq, ?_⟩
-          rw [hk] at hn ht
-          exact same_of_key hn ht
+          rw [hk] at hn
+          exact same_of_key hn
     · exact hi
   · exact hi
 
@@ -317,7 +316,7 @@ theorem inv_step_join (cfg : Cfg) (s : St) (i : Nat) (hi : Inv s) : Inv (step cf
           · exact h3 g gl m hg hgr
           · simp only [Option.some.injEq, DRes.ok.injEq] at hgr
             subst hgr
-            exact ⟨e.q, rfl, hcs.1, hcs.2⟩
+            exact ⟨e.q, rfl, hcs.1⟩
         · intro j g hj
           simp only [St.setPc] at hj ⊢
           by_cases hne : i = j
@@ -459,15 +458,15 @@ theorem inv_step_join (cfg : Cfg) (s : St) (i : Nat) (hi : Inv s) : Inv (step cf
           · rw [List.getElem?_set_ne hne] at hj; exact h12 j hj
   · exact hi
 
-theorem same_iff {a b : Question} : a.same b = true ↔ a.name = b.name ∧ a.qtype = b.qtype := by
+theorem same_iff {a b : Question} : a.same b = true ↔ a.ident = b.ident := by
   simp [Question.same]
 
 theorem dialSend_spec (cfg : Cfg) (hcfg : cfg.checkQuestion = true) (c : Client) (sch : Scheme) (a1 a2 : Att)
     (cache : List (Key × Entry)) :
     (∀ m, (dialSend cfg c sch a1 a2 cache).1 = .ok m →
-      m.id = c.id ∧ ∃ mq : Question, m.q = some mq ∧ mq.name = c.q.name ∧ mq.qtype = c.q.qtype) ∧
+      m.id = c.id ∧ ∃ mq : Question, m.q = some mq ∧ mq.ident = c.q.ident) ∧
     (∀ p, p ∈ (dialSend cfg c sch a1 a2 cache).2 →
-      p ∈ cache ∨ (p.1 = c.key ∧ p.2.q.name = c.q.name ∧ p.2.q.qtype = c.q.qtype)) := by
+      p ∈ cache ∨ (p.1 = c.key ∧ p.2.q.ident = c.q.ident ∧ c.q.qclass = classIN)) := by
   unfold dialSend
   split
   · exact ⟨(by intro m h; cases h), fun p hp => .inl hp⟩
@@ -490,12 +489,20 @@ theorem dialSend_spec (cfg : Cfg) (hcfg : cfg.checkQuestion = true) (c : Client)
         refine ⟨?_, ?_⟩
         · intro m' h
           cases h
-          exact ⟨rfl, mq, rfl, hs.1.symm, hs.2.symm⟩
+          exact ⟨rfl, mq, rfl, hs.symm⟩
         · intro p hp
           simp only at hp
           split at hp
-          · rcases mem_insert hp with rfl | ⟨hp, _⟩
-            · exact .inr ⟨rfl, hs.1.symm, hs.2.symm⟩
+          · next hcond =>
+            rcases mem_insert hp with rfl | ⟨hp, _⟩
+            · have hcl : mq.qclass = classIN := by
+                simp only [Bool.and_eq_true, beq_iff_eq] at hcond
+                exact hcond.2
+              have hcl' : c.q.qclass = classIN := by
+                have := congrArg (fun t => t.2.2) hs
+                simp only [Question.ident] at this
+                rw [this]; exact hcl
+              exact .inr ⟨rfl, hs.symm, hcl'⟩
             · exact .inl hp
           · exact .inl hp
 
@@ -538,10 +545,9 @@ theorem inv_step_resolve (cfg : Cfg) (hcfg : cfg.checkQuestion = true) (s : St) 
           rcases getElem?_set_some hg with ⟨rfl, rfl⟩ | ⟨_, hg⟩
           · simp only [Option.some.injEq] at hgr
             subst hgr
-            obtain ⟨_, mq, hmq, hn, ht⟩ := hd1 m rfl
-            refine ⟨mq, hmq, ?_, ?_⟩
-            · simp only; rw [← hck]; exact hn
-            · simp only; rw [← hck]; exact ht
+            obtain ⟨_, mq, hmq, hn⟩ := hd1 m rfl
+            refine ⟨mq, hmq, ?_⟩
+            simp only; rw [← hck]; exact hn
           · exact h3 g gl m hg hgr
         · intro j g hj
           simp only [St.setPc] at hj ⊢
